@@ -101,7 +101,7 @@ NAME_POOL = ["left", "Gamma_int", "inner-1", "sub.2", "k7", "UPPER", "upper", "x
 @contextlib.contextmanager
 def quiet():
     """meshio reports padding of 2-D points etc. on stderr through rich; keep the run log readable."""
-    with contextlib.redirect_stderr(io.StringIO()):
+    with contextlib.redirect_stderr(io.StringIO()), contextlib.redirect_stdout(io.StringIO()):
         yield
 
 
@@ -405,8 +405,8 @@ def compare(ctx, fmt, orig, tags, loaded, exact_p=True, resorted_ok=False, case=
                 return "orientation-dropped:npz"
             if fmt in ("dict", "json") and lost:
                 return "orientation-dropped:dict-json"
-            if resorted and fmt in MESHIO_LIKE:
-                return RESORT_MECH
+            if resorted:
+                return RESORT_MECH   # (stored raw flags name other cells after re-sorting: any format)
             if fmt in MESHIO_LIKE:
                 model = a9_model(orig, ref)
                 if model is not None and model == dict(zip(gidx, gflags)):
@@ -683,7 +683,7 @@ def d_names(ctx, name):
     # tag names a caller may choose; a format may refuse a name (legacy VTK: blanks) but not change it
     import skfem
     mesh = skfem.MeshTri1().refined(2)
-    for group in (["with space", "tab\there"], ["a:b", "a:c", "skfem:s:z"], ["b_x", "s_y", "doflocs", "t", "p"],
+    for group in (["with space", "two  blanks "], ["a:b", "a:c", "skfem:s:z"], ["b_x", "s_y", "doflocs", "t", "p"],
                   ["", "é-ü", "x/y", "100%", "UP", "up"]):
         tags = Tags()
         for i, nm in enumerate(group):
